@@ -16,7 +16,7 @@ impl SelectSyscall for NothingReady {
 #[kani::stub(crate::net::EventLoops::wait_event, wait_event_stub)]
 fn c14_select_timeout() {
     let usec: i64 = kani::any();
-    kani::assume(usec >= 0 && usec <= 40_000);
+    kani::assume(usec >= 0 && usec <= 143_000); // 143 ms = MAX_CALLS rounds
     let mut tv = timeval { tv_sec: 0, tv_usec: usec };
     let nio: NioSelectSyscall<NothingReady> = NioSelectSyscall::default();
     let r = nio.select(None, 0, std::ptr::null_mut(), std::ptr::null_mut(), std::ptr::null_mut(), &raw mut tv);
@@ -24,21 +24,23 @@ fn c14_select_timeout() {
     let want = (usec as u128) * 1_000;
     kani::assert(unsafe { WAITED_NS } >= want, "C14.select_never_waits_less_than_requested");
     kani::assert(unsafe { WAITED_NS } < want + 1_000_000, "C14.select_waits_no_more_than_requested_plus_1ms");
-    kani::cover!(usec == 40_000, "C14.cover_select_40ms");
+    kani::cover!(usec == 143_000 && unsafe { WAIT_CALLS } == MAX_CALLS, "C14.cover_select_143ms");
 }
 
 #[kani::proof]
 #[kani::unwind(14)]
 #[kani::stub(crate::net::EventLoops::wait_event, wait_event_stub)]
 fn c14_select_seconds() {
-    // whole seconds: the first waits requested are 1, 2, 4, 8, 16, 16 ... ms; after MAX_CALLS rounds at most
-    // 1+2+4+8+16*8 ms have been requested, so a request of >= 1 s cannot have returned
+    // long requests: the first waits requested are 1, 2, 4, 8, 16, 16 ... ms; after MAX_CALLS rounds at most
+    // 1+2+4+8+16*8 = 143 ms have been requested, so a request of more than 143 ms cannot have returned
+    // every positive number of seconds up to i64::MAX (the maximal request) and every non-negative tv_usec
     let sec: i64 = kani::any();
-    kani::assume(sec >= 1 && sec <= 4_000_000);
-    let mut tv = timeval { tv_sec: sec, tv_usec: 0 };
+    let usec: i64 = kani::any();
+    kani::assume(sec >= 0 && usec >= 0 && (sec >= 1 || usec > 143_000));
+    let mut tv = timeval { tv_sec: sec, tv_usec: usec };
     let nio: NioSelectSyscall<NothingReady> = NioSelectSyscall::default();
     let _ = nio.select(None, 0, std::ptr::null_mut(), std::ptr::null_mut(), std::ptr::null_mut(), &raw mut tv);
-    kani::assert(false, "C14.select_of_a_second_or_more_does_not_return_within_143ms_of_waiting");
+    kani::assert(false, "C14.select_of_more_than_143ms_does_not_return_within_143ms_of_waiting");
 }
 
 #[kani::proof]
